@@ -4,22 +4,22 @@ C03x — the BC7 and BC6H part of C03 ("blocks decode to the values the format s
 Models: `Bc7.lean`, `Bc6.lean`, `BcTables.lean` (code-shaped) against `Bc7Spec.lean`, `Bc6Spec.lean` and the
 `spec*` tables (specification-shaped, pinned).  Every theorem quantifies over ALL blocks / values.
 
-What is NOT proved here (kept visible, see notes/C03x.md):
-  * `bc7_impl_eq_spec` / `bc6_impl_eq_spec` for whole blocks are assembled only for the zero cases
-    (`bc7_impl_eq_spec_partial`, `bc6_impl_eq_spec_partial`).  Missing steps, by name:
-      - `decompress_single_index_spec`: `Indexes::decompress_single_index` + `get_index` = the spec's anchor rule
-        (index of pixel i = `bits - [i anchor]` bits at `start + i*bits - #anchors before i`);
-      - `bc6_extract_eq_fields`: the `consume!` interpreter (`Bc6.extractTwo/One`) = `Bc6Spec.rawField`;
-      - `bc6_no_i32_overflow`: every `wrap32` in `unquantize`/`paletteEntry`/`finishUnquantize` is the identity;
-      - the per-mode glue that composes the lemmas below into pixel equality.
-    The lemmas that ARE proved cover mode selection, every header field read, endpoint widening, p-bits, weights,
-    interpolation, partition/anchor tables, BC6H header layouts, reserved modes, sign extension and the three
-    output precisions.  The unproved steps are covered by the run-time tie only.
+Whole-block results (Proofs/Bc7Glue*.lean, Proofs/Bc6Glue*.lean):
+  * `bc7_impl_eq_spec` : `Bc7.decodeBlock b = Bc7Spec.decodeBlock b` for EVERY block (modes 0..7 and the reserved mode 8);
+  * `bc6_impl_eq_spec` : `Bc6.decodeBlock signed b = Bc6Spec.decodeBlock signed b` for EVERY block, both formats
+    (14 modes and the four reserved codes).
+The steps that compose them are stated here too: `decompress_single_index_spec` (fix-up index decompression = anchor
+rule), `bc6_extract_eq_fields` (`consume!` sequences = spec field layouts), `bc6_endpoints_eq_spec` (sign extension +
+delta transform), `bc6_no_i32_overflow` (unquantize / interpolate / finish never leave `i32`), plus the older lemmas on
+mode selection, stream reads, endpoint widening, p-bits, weights, interpolation, tables and output precisions.
 -/
 import DdsModel.Proofs.BcTables
 import DdsModel.Proofs.Bc7
 import DdsModel.Proofs.Bc6
 import DdsModel.Proofs.BcHalf
+import DdsModel.Proofs.Bc7Glue
+import DdsModel.Proofs.Bc6Glue
+import DdsModel.Proofs.Bc6GlueNoOverflow
 namespace Dds.C03x
 open Dds.BcTables
 
@@ -102,16 +102,59 @@ theorem weights_x4 :
     (∀ i, i < 8 → Bc7.WEIGHTS_3.getD i 0 = 4 * specW3.getD i 0 ∧ specW3.getD i 0 ≤ 64) ∧
     (∀ i, i < 16 → Bc7.WEIGHTS_4.getD i 0 = 4 * specW4.getD i 0 ∧ specW4.getD i 0 ≤ 64) := Bc7.weights_x4
 
-/-- PARTIAL whole-block theorem: for every block without a mode bit in its first byte (the reserved "mode 8")
-both models give 16 × (0,0,0,0).  Full statement `∀ b < 2^128, Bc7.decodeBlock b = Bc7Spec.decodeBlock b`:
-missing `decompress_single_index_spec` and the per-mode glue (see header). -/
-theorem bc7_impl_eq_spec_partial (b : Nat) (h : b % 256 = 0) :
-    Bc7.decodeBlock b = Bc7Spec.decodeBlock b ∧ Bc7.decodeBlock b = List.replicate 16 [0, 0, 0, 0] := by
-  have hs : Bc7Spec.decodeBlock b = List.replicate 16 [0, 0, 0, 0] := by
-    have : Bc7Spec.modeOf b = 8 := by
-      rw [← Bc7.mode_by_trailing_zeros]; simp only [Bc7.extractMode, U8, h]; decide
-    simp only [Bc7Spec.decodeBlock, this]; rfl
-  rw [hs, Bc7.mode8_zero b h]; exact ⟨rfl, rfl⟩
+/-- `Indexes::decompress_single_index` inserts a zero bit above the `bits - 1` stored bits of entry `a` (for every
+64-bit payload that fits), and therefore `get_index` on the words built by `new_p1 / new_p2 / new_p3` (fix-ups taken
+from the code's partition tables) returns, for EVERY block, stream position, partition and pixel, exactly the field the
+specification's anchor rule names: `bits` bits (one less for an anchor pixel) at
+`start + pixel * bits - #anchors before pixel`.  (BC7: `Bc7Spec.index1`; BC6H: `Bc6Spec.index` has the same form.) -/
+theorem decompress_single_index_spec (b P i : Nat) (hi : i < 16) :
+    (∀ bits x a, (bits = 2 ∨ bits = 3 ∨ bits = 4) → a < 16 → x < 2 ^ (16 * bits - 1) →
+      Bc7.decompressSingleIndex bits x a =
+        x % 2 ^ (a * bits + bits - 1) + 2 ^ (a * bits + bits - 1 + 1) * (x / 2 ^ (a * bits + bits - 1))) ∧
+    (∀ bits n part, (bits = 2 ∨ bits = 3 ∨ bits = 4) → n ≠ 2 → n ≠ 3 →
+      Bc7.getIndex (Bc7.newP1 bits (b >>> P)).1 i =
+        Bc7Spec.rd b (P + i * bits - Bc7Spec.anchorsBefore n part i) (if specIsAnchor n part i then bits - 1 else bits)) ∧
+    (∀ bits part, (bits = 2 ∨ bits = 3 ∨ bits = 4) → part < 64 →
+      Bc7.getIndex (Bc7.newP2 bits (b >>> P) (implP2 part).2).1 i =
+        Bc7Spec.rd b (P + i * bits - Bc7Spec.anchorsBefore 2 part i) (if specIsAnchor 2 part i then bits - 1 else bits)) ∧
+    (∀ bits part, (bits = 2 ∨ bits = 3) → part < 64 →
+      Bc7.getIndex (Bc7.newP3 bits (b >>> P) (implP3 part).2.1 (implP3 part).2.2).1 i =
+        Bc7Spec.rd b (P + i * bits - Bc7Spec.anchorsBefore 3 part i) (if specIsAnchor 3 part i then bits - 1 else bits)) :=
+  ⟨fun bits x a hb ha hx => Bc7.decompressSingleIndex_eq bits x a hb ha hx,
+   fun bits n part hb hn hn' => Bc7.index_impl1 bits b P n part i hb hi hn hn',
+   fun bits part hb hp => Bc7.index_impl2 bits b P part i hb hi hp,
+   fun bits part hb hp => Bc7.index_impl3 bits b P part i hb hi hp⟩
+example : Bc7.decompressSingleIndex 3 0b111111 1 = 0b1011111 := by decide
+
+/-- WHOLE-BLOCK theorem, BC7: for EVERY block (no bound needed: both models only look at bits 0..127) the
+implementation-shaped decoder (shifting `u128` stream, `u8`/`u16`/`u64` arithmetic, fix-up index decompression, bit-packed
+partition maps, pre-scaled weights) returns exactly the 16 RGBA pixels the specification-shaped decoder defines
+(mode record table, positional field reads, p-bits + bit replication, anchor rule, `((64-w)e0 + w e1 + 32) >> 6`,
+rotation, index selector), for all eight modes and the reserved mode 8. -/
+theorem bc7_impl_eq_spec (b : Nat) : Bc7.decodeBlock b = Bc7Spec.decodeBlock b := Bc7.decodeBlock_eq b
+-- one concrete block per mode: the mode is selected and the decoded pixels are not trivially zero
+example : Bc7Spec.modeOf 0xfedcba98765432100123456789abcdef = 0 ∧
+    Bc7.decodeBlock 0xfedcba98765432100123456789abcdef ≠ List.replicate 16 [0, 0, 0, 0] := by decide +kernel
+example : Bc7Spec.modeOf 0xfedcba98765432100123456789abcdee = 1 ∧
+    Bc7.decodeBlock 0xfedcba98765432100123456789abcdee ≠ List.replicate 16 [0, 0, 0, 0] := by decide +kernel
+example : Bc7Spec.modeOf 0xfedcba98765432100123456789abcdec = 2 ∧
+    Bc7.decodeBlock 0xfedcba98765432100123456789abcdec ≠ List.replicate 16 [0, 0, 0, 0] := by decide +kernel
+example : Bc7Spec.modeOf 0xfedcba98765432100123456789abcde8 = 3 ∧
+    Bc7.decodeBlock 0xfedcba98765432100123456789abcde8 ≠ List.replicate 16 [0, 0, 0, 0] := by decide +kernel
+example : Bc7Spec.modeOf 0xfedcba98765432100123456789abcdf0 = 4 ∧
+    Bc7.decodeBlock 0xfedcba98765432100123456789abcdf0 ≠ List.replicate 16 [0, 0, 0, 0] := by decide +kernel
+example : Bc7Spec.modeOf 0xfedcba98765432100123456789abcde0 = 5 ∧
+    Bc7.decodeBlock 0xfedcba98765432100123456789abcde0 ≠ List.replicate 16 [0, 0, 0, 0] := by decide +kernel
+example : Bc7Spec.modeOf 0xfedcba98765432100123456789abcdc0 = 6 ∧
+    Bc7.decodeBlock 0xfedcba98765432100123456789abcdc0 ≠ List.replicate 16 [0, 0, 0, 0] := by decide +kernel
+example : Bc7Spec.modeOf 0xfedcba98765432100123456789abcd80 = 7 ∧
+    Bc7.decodeBlock 0xfedcba98765432100123456789abcd80 ≠ List.replicate 16 [0, 0, 0, 0] := by decide +kernel
+
+/-- Reserved "mode 8": every block without a mode bit in its first byte decodes to 16 × (0,0,0,0), in both models. -/
+theorem bc7_reserved_zero (b : Nat) (h : b % 256 = 0) :
+    Bc7.decodeBlock b = List.replicate 16 [0, 0, 0, 0] ∧ Bc7Spec.decodeBlock b = List.replicate 16 [0, 0, 0, 0] := by
+  have h1 := Bc7.mode8_zero b h
+  exact ⟨h1, by rw [← bc7_impl_eq_spec b]; exact h1⟩
 example : (0x1234500 : Nat) % 256 = 0 := by decide
 
 /-! ## BC6H -/
@@ -141,20 +184,132 @@ theorem bc6_signext (w v : Nat) (hw : 1 ≤ w) (hw' : w ≤ 16) (hv : v < 2 ^ w)
     Bc6.signExtend (v : Int) w = Bc6Spec.sext w v := Bc6.signExtend_eq w v hw hw' hv
 example : (1 : Nat) ≤ 5 ∧ 5 ≤ 16 ∧ 31 < 2 ^ 5 := by decide
 
-/-- PARTIAL whole-block theorem: blocks with a reserved mode code decode to zero in both models.
-Full statement `∀ signed b, b < 2^128 → Bc6.decodeBlock signed b = Bc6Spec.decodeBlock signed b`: missing
-`bc6_extract_eq_fields`, `bc6_no_i32_overflow`, `decompress_single_index_spec` and the glue (see header). -/
-theorem bc6_impl_eq_spec_partial (signed : Bool) (b : Nat)
-    (h : b % 32 = 19 ∨ b % 32 = 23 ∨ b % 32 = 27 ∨ b % 32 = 31) :
-    Bc6.decodeBlock signed b = Bc6Spec.decodeBlock signed b := by
-  rw [Bc6.reserved_zero signed b h]
-  have hm : Bc6Spec.modeOf b = Bc6Spec.modeOf (b % 32) := by
-    have e2 : b % 32 % 2 ^ 2 = b % 2 ^ 2 := Nat.mod_mod_of_dvd _ (by decide)
-    have e5 : b % 32 % 2 ^ 5 = b % 2 ^ 5 := Nat.mod_mod_of_dvd _ (by decide)
-    simp only [Bc6Spec.modeOf, Bc6Spec.modes, List.find?, e2, e5]
-  have hn : Bc6Spec.modeOf b = none := by
-    rw [hm]; rcases h with h | h | h | h <;> rw [h] <;> decide +kernel
-  simp only [Bc6Spec.decodeBlock, hn]
+/-- Mode dispatch for every block: the mode `extract_mode` returns and the record the spec table selects correspond
+(`Bc6.recTwo` / `Bc6.recOne` name the spec record of a code mode), and the header fields start right after the spec's
+mode bits. -/
+theorem bc6_mode_record (b : Nat) :
+    match (Bc6.extractMode b).1 with
+    | .two m => Bc6Spec.modeOf b = some (Bc6.recTwo m) ∧ Bc6.extractMode b = (.two m, b >>> (Bc6.recTwo m).modeBits)
+    | .one m => Bc6Spec.modeOf b = some (Bc6.recOne m) ∧ Bc6.extractMode b = (.one m, b >>> 5)
+    | .invalid => Bc6Spec.modeOf b = none := Bc6.dispatch b
+
+/-- `bc6_extract_eq_fields`: for all 10 two-region and all 4 one-region modes and EVERY block, the accumulators the
+code fills (`consume!` sequences interpreted by `stepOp`; `consume_bits_32` / `consume_bits_rev` for one region) are the
+specification's raw field values `rawField` (bit `j` of component `ce` = block bit `srcPos … c e j`), each below
+`2 ^ declared width`, and the stream then stands at block bit 77 resp. 65. -/
+theorem bc6_extract_eq_fields (b : Nat) :
+    (∀ m : Bc6.ModeTwo,
+      (Bc6.extractTwo m (b >>> (Bc6.recTwo m).modeBits)).2 = b >>> 77 ∧
+      ∀ c e, c < 3 → e < 4 →
+        Bc6.accGet (Bc6.extractTwo m (b >>> (Bc6.recTwo m).modeBits)).1 e c = Bc6Spec.rawField (Bc6.recTwo m) b c e ∧
+        Bc6Spec.rawField (Bc6.recTwo m) b c e < 2 ^ Bc6.fieldWidth (Bc6.recTwo m) c e) ∧
+    (∀ m : Bc6.ModeOne,
+      (Bc6.extractOne m (b >>> 5)).2 = b >>> 65 ∧
+      ∀ c, c < 3 →
+        (Bc6.extractOne m (b >>> 5)).1.getD c 0 = Bc6Spec.rawField (Bc6.recOne m) b c 0 ∧
+        (Bc6.extractOne m (b >>> 5)).1.getD (3 + c) 0 = Bc6Spec.rawField (Bc6.recOne m) b c 1 ∧
+        Bc6Spec.rawField (Bc6.recOne m) b c 0 < 2 ^ Bc6.fieldWidth (Bc6.recOne m) c 0 ∧
+        Bc6Spec.rawField (Bc6.recOne m) b c 1 < 2 ^ Bc6.fieldWidth (Bc6.recOne m) c 1) :=
+  ⟨fun m => Bc6.extractTwo_eq m b, fun m => Bc6.extractOne_eq m b⟩
+
+/-- `decompress_endpoints_{two,one}` on raw field values of the declared widths = the spec's endpoint rule
+(`Bc6.endpointV` is `Bc6Spec.endpoint` with the raw field values as arguments: two's complement reading, delta added to
+endpoint 0 and wrapped to the precision, sign-extended again for the signed format), and the results lie in the
+precision's range. -/
+theorem bc6_endpoints_eq_spec (signed : Bool) :
+    (∀ r b c e, Bc6Spec.endpoint r signed b c e =
+      Bc6.endpointV r.prec (Bc6Spec.deltaW r c) r.transformed signed (Bc6Spec.rawField r b c 0) (Bc6Spec.rawField r b c e) e) ∧
+    (∀ (m : Bc6.ModeTwo) (d w x y z : Nat),
+      (d = m.deltaBitCount.1 ∨ d = m.deltaBitCount.2.1 ∨ d = m.deltaBitCount.2.2) →
+      w < 2 ^ m.a0BitCount → x < 2 ^ d → y < 2 ^ d → z < 2 ^ d →
+      Bc6.decompressTwoChan m signed d (w : Int) (x : Int) (y : Int) (z : Int) =
+        [Bc6.endpointV m.a0BitCount d m.transformed signed w w 0, Bc6.endpointV m.a0BitCount d m.transformed signed w x 1,
+         Bc6.endpointV m.a0BitCount d m.transformed signed w y 2, Bc6.endpointV m.a0BitCount d m.transformed signed w z 3]) ∧
+    (∀ (m : Bc6.ModeOne) (a z : Nat), a < 2 ^ m.a0BitCount → z < 2 ^ m.b0BitCount →
+      Bc6.decompressOneChan m signed (a : Int) (z : Int) =
+        [Bc6.endpointV m.a0BitCount m.b0BitCount m.transformed signed a a 0,
+         Bc6.endpointV m.a0BitCount m.b0BitCount m.transformed signed a z 1]) ∧
+    (∀ prec d tr base raw e, 6 ≤ prec → prec ≤ 16 → 1 ≤ d → d ≤ prec → (tr = false → d = prec) →
+      base < 2 ^ prec → raw < 2 ^ d → Bc6.inRange signed prec (Bc6.endpointV prec d tr signed base raw e)) :=
+  ⟨fun r b c e => Bc6.endpoint_eq_V r signed b c e,
+   fun m d w x y z hd hw hx hy hz => Bc6.decompressTwoChan_eq m signed d w x y z hd hw hx hy hz,
+   fun m a z ha hz => Bc6.decompressOneChan_eq m signed a z ha hz,
+   fun prec d tr base raw e h1 h2 h3 h4 h5 h6 h7 => Bc6.endpointV_inRange prec d tr signed base raw e h1 h2 h3 h4 h5 h6 h7⟩
+example : (Bc6.ModeTwo.M11_454).deltaBitCount.2.1 = 5 ∧ (2047 : Nat) < 2 ^ (Bc6.ModeTwo.M11_454).a0BitCount ∧ (31 : Nat) < 2 ^ 5 := by
+  decide
+
+/-- `bc6_no_i32_overflow`: for every endpoint value in the range of its precision (all precisions the 14 modes use) and
+every weight 0..64, the CHECKED evaluation (`Bc6.unquantizeCk`, `Bc6.paletteEntryCk`: the model with every `wrap32`
+replaced by a trap when the value leaves `i32`) never traps and returns what the wrapping model returns; and that
+value is the specification's exact integer result (`unquantize`, then `finish (lerp a b w)`), inside 16 bits. -/
+theorem bc6_no_i32_overflow (signed : Bool) :
+    (∀ bits c, (bits = 6 ∨ bits = 7 ∨ bits = 8 ∨ bits = 9 ∨ bits = 10 ∨ bits = 11 ∨ bits = 12 ∨ bits = 16) →
+      Bc6.inRange signed bits c →
+      Bc6.unquantizeCk c bits signed = some (Bc6.unquantize c bits signed) ∧
+      Bc6.unquantize c bits signed = Bc6Spec.unquantize signed bits c ∧
+      (if signed then -32768 ≤ Bc6Spec.unquantize signed bits c ∧ Bc6Spec.unquantize signed bits c ≤ 32767
+       else 0 ≤ Bc6Spec.unquantize signed bits c ∧ Bc6Spec.unquantize signed bits c ≤ 65535)) ∧
+    (∀ (a b : Int) (w : Nat), w ≤ 64 →
+      (if signed then -32768 ≤ a ∧ a ≤ 32767 else 0 ≤ a ∧ a ≤ 65535) →
+      (if signed then -32768 ≤ b ∧ b ≤ 32767 else 0 ≤ b ∧ b ≤ 65535) →
+      Bc6.paletteEntryCk a b w signed = some (Bc6.paletteEntry a b w signed) ∧
+      Bc6.paletteEntry a b w signed = Bc6Spec.finish signed (Bc6Spec.lerp a b w)) :=
+  ⟨fun bits c hb hc => ⟨Bc6.unquantizeCk_some signed bits c hb hc, (Bc6.unquantize_eq signed bits c hb hc).1,
+      (Bc6.unquantize_eq signed bits c hb hc).2⟩,
+   fun a b w hw ha hb => ⟨Bc6.paletteEntryCk_some signed a b w hw ha hb, Bc6.paletteEntry_eq signed a b w hw ha hb⟩⟩
+example : Bc6.inRange true 11 (-1024) ∧ Bc6.inRange false 16 65535 := by
+  constructor <;> simp [Bc6.inRange]
+
+/-- WHOLE-BLOCK theorem, BC6H: for EVERY block and both formats (`BC6H_SF16`: `signed = true`, `BC6H_UF16`: `false`) the
+implementation-shaped decoder (`consume!` extraction on the shifting `u128` stream, `(x<<s)>>s` sign extension,
+wrapping `i32` delta/unquantize/interpolate/finish, fix-up index decompression, bit-packed partition maps) returns exactly
+the 16 RGB half patterns the specification-shaped decoder defines (14 mode records with positional header layouts, exact
+`Int` arithmetic, anchor rule), including the four reserved codes (all zero). -/
+theorem bc6_impl_eq_spec (signed : Bool) (b : Nat) : Bc6.decodeBlock signed b = Bc6Spec.decodeBlock signed b :=
+  Bc6.decodeBlock_eq signed b
+-- one concrete block per mode code: the mode is selected and the decoded pixels are not trivially zero (both formats)
+example : (Bc6Spec.modeOf 0xfedcba98765432100123456789abcdec).map (fun r => (r.modeBits, r.code)) = some (2, 0) ∧
+    Bc6.decodeBlock false 0xfedcba98765432100123456789abcdec ≠ List.replicate 16 [0, 0, 0] ∧
+    Bc6.decodeBlock true 0xfedcba98765432100123456789abcdec ≠ List.replicate 16 [0, 0, 0] := by decide +kernel
+example : (Bc6Spec.modeOf 0xfedcba98765432100123456789abcded).map (fun r => (r.modeBits, r.code)) = some (2, 1) ∧
+    Bc6.decodeBlock false 0xfedcba98765432100123456789abcded ≠ List.replicate 16 [0, 0, 0] ∧
+    Bc6.decodeBlock true 0xfedcba98765432100123456789abcded ≠ List.replicate 16 [0, 0, 0] := by decide +kernel
+example : (Bc6Spec.modeOf 0xfedcba98765432100123456789abcde2).map (fun r => (r.modeBits, r.code)) = some (5, 2) ∧
+    Bc6.decodeBlock false 0xfedcba98765432100123456789abcde2 ≠ List.replicate 16 [0, 0, 0] ∧
+    Bc6.decodeBlock true 0xfedcba98765432100123456789abcde2 ≠ List.replicate 16 [0, 0, 0] := by decide +kernel
+example : (Bc6Spec.modeOf 0xfedcba98765432100123456789abcde6).map (fun r => (r.modeBits, r.code)) = some (5, 6) ∧
+    Bc6.decodeBlock false 0xfedcba98765432100123456789abcde6 ≠ List.replicate 16 [0, 0, 0] ∧
+    Bc6.decodeBlock true 0xfedcba98765432100123456789abcde6 ≠ List.replicate 16 [0, 0, 0] := by decide +kernel
+example : (Bc6Spec.modeOf 0xfedcba98765432100123456789abcdea).map (fun r => (r.modeBits, r.code)) = some (5, 10) ∧
+    Bc6.decodeBlock false 0xfedcba98765432100123456789abcdea ≠ List.replicate 16 [0, 0, 0] ∧
+    Bc6.decodeBlock true 0xfedcba98765432100123456789abcdea ≠ List.replicate 16 [0, 0, 0] := by decide +kernel
+example : (Bc6Spec.modeOf 0xfedcba98765432100123456789abcdee).map (fun r => (r.modeBits, r.code)) = some (5, 14) ∧
+    Bc6.decodeBlock false 0xfedcba98765432100123456789abcdee ≠ List.replicate 16 [0, 0, 0] ∧
+    Bc6.decodeBlock true 0xfedcba98765432100123456789abcdee ≠ List.replicate 16 [0, 0, 0] := by decide +kernel
+example : (Bc6Spec.modeOf 0xfedcba98765432100123456789abcdf2).map (fun r => (r.modeBits, r.code)) = some (5, 18) ∧
+    Bc6.decodeBlock false 0xfedcba98765432100123456789abcdf2 ≠ List.replicate 16 [0, 0, 0] ∧
+    Bc6.decodeBlock true 0xfedcba98765432100123456789abcdf2 ≠ List.replicate 16 [0, 0, 0] := by decide +kernel
+example : (Bc6Spec.modeOf 0xfedcba98765432100123456789abcdf6).map (fun r => (r.modeBits, r.code)) = some (5, 22) ∧
+    Bc6.decodeBlock false 0xfedcba98765432100123456789abcdf6 ≠ List.replicate 16 [0, 0, 0] ∧
+    Bc6.decodeBlock true 0xfedcba98765432100123456789abcdf6 ≠ List.replicate 16 [0, 0, 0] := by decide +kernel
+example : (Bc6Spec.modeOf 0xfedcba98765432100123456789abcdfa).map (fun r => (r.modeBits, r.code)) = some (5, 26) ∧
+    Bc6.decodeBlock false 0xfedcba98765432100123456789abcdfa ≠ List.replicate 16 [0, 0, 0] ∧
+    Bc6.decodeBlock true 0xfedcba98765432100123456789abcdfa ≠ List.replicate 16 [0, 0, 0] := by decide +kernel
+example : (Bc6Spec.modeOf 0xfedcba98765432100123456789abcdfe).map (fun r => (r.modeBits, r.code)) = some (5, 30) ∧
+    Bc6.decodeBlock false 0xfedcba98765432100123456789abcdfe ≠ List.replicate 16 [0, 0, 0] ∧
+    Bc6.decodeBlock true 0xfedcba98765432100123456789abcdfe ≠ List.replicate 16 [0, 0, 0] := by decide +kernel
+example : (Bc6Spec.modeOf 0xfedcba98765432100123456789abcde3).map (fun r => (r.modeBits, r.code)) = some (5, 3) ∧
+    Bc6.decodeBlock false 0xfedcba98765432100123456789abcde3 ≠ List.replicate 16 [0, 0, 0] ∧
+    Bc6.decodeBlock true 0xfedcba98765432100123456789abcde3 ≠ List.replicate 16 [0, 0, 0] := by decide +kernel
+example : (Bc6Spec.modeOf 0xfedcba98765432100123456789abcde7).map (fun r => (r.modeBits, r.code)) = some (5, 7) ∧
+    Bc6.decodeBlock false 0xfedcba98765432100123456789abcde7 ≠ List.replicate 16 [0, 0, 0] ∧
+    Bc6.decodeBlock true 0xfedcba98765432100123456789abcde7 ≠ List.replicate 16 [0, 0, 0] := by decide +kernel
+example : (Bc6Spec.modeOf 0xfedcba98765432100123456789abcdeb).map (fun r => (r.modeBits, r.code)) = some (5, 11) ∧
+    Bc6.decodeBlock false 0xfedcba98765432100123456789abcdeb ≠ List.replicate 16 [0, 0, 0] ∧
+    Bc6.decodeBlock true 0xfedcba98765432100123456789abcdeb ≠ List.replicate 16 [0, 0, 0] := by decide +kernel
+example : (Bc6Spec.modeOf 0xfedcba98765432100123456789abcdef).map (fun r => (r.modeBits, r.code)) = some (5, 15) ∧
+    Bc6.decodeBlock false 0xfedcba98765432100123456789abcdef ≠ List.replicate 16 [0, 0, 0] ∧
+    Bc6.decodeBlock true 0xfedcba98765432100123456789abcdef ≠ List.replicate 16 [0, 0, 0] := by decide +kernel
 
 /-! ## output precisions -/
 
